@@ -16,6 +16,8 @@ PAIRS = {
     'single-swap': ('N', [[0., 0, 0]], 'P', [[0., 0, 0]]),
     'sym-grow': ('OCO', geo.PATTERNS['sym3'][1], 'OCOS', geo.PATTERNS['sym3'][1] + [[0.0, 1.5, 0.0]]),
     'grow-planar': ('CNO', geo.PATTERNS['planar3'][1], 'CNOSP', geo.PATTERNS['planar3'][1] + [[1.6, 1.5, 1.3], [2.4, 2.3, 2.1]]),
+    # the first atom keeps its element but is displaced by 0.08 A in the replacement (more than the sameness threshold 1e-5, less than 0.1)
+    'nudge-swap': ('CNO', geo.PATTERNS['planar3'][1], 'CNS', [[0.05, -0.05, 0.04]] + geo.PATTERNS['planar3'][1][1:]),
     'collinear-swap': ('CNO', geo.PATTERNS['collinear3'][1], 'CNS', geo.PATTERNS['collinear3'][1][:2] + [[2.5, 0.0, 0.0]]),
 }
 
